@@ -29,6 +29,47 @@ def ordering_vs_const(op, const, limit=64):
     return tuple(f(s, const) for s in (limit - 1, limit, limit + 1, 10 * limit))
 
 
+def guard_truth(size_e: ast.AST, op, const, limit=64):
+    """truth of `f(size) OP const` for size in (63, 64, 65, 640), where size_e = f(S) is arithmetic (+ - * / // >> with constants,
+    ceil / floor / int) over ONE non-arithmetic sub-expression S taken for the size in bits; None when not of that form"""
+    import math
+    cmpf = {ast.Gt: lambda a, b: a > b, ast.GtE: lambda a, b: a >= b, ast.Lt: lambda a, b: a < b, ast.LtE: lambda a, b: a <= b, ast.Eq: lambda a, b: a == b, ast.NotEq: lambda a, b: a != b}.get(type(op))
+    if cmpf is None:
+        return None
+    leaves = []
+
+    def ev(e, S):
+        if isinstance(e, ast.Constant) and isinstance(e.value, (int, float)) and not isinstance(e.value, bool):
+            return e.value
+        if isinstance(e, ast.BinOp) and (isinstance(e.left, ast.Constant) or isinstance(e.right, ast.Constant)) and isinstance(e.op, (ast.Add, ast.Sub, ast.Mult, ast.Div, ast.FloorDiv, ast.RShift, ast.LShift)):
+            a, b = ev(e.left, S), ev(e.right, S)
+            if a is None or b is None:
+                return None
+            try:
+                return {ast.Add: lambda: a + b, ast.Sub: lambda: a - b, ast.Mult: lambda: a * b, ast.Div: lambda: a / b, ast.FloorDiv: lambda: a // b,
+                        ast.RShift: lambda: int(a) >> int(b), ast.LShift: lambda: int(a) << int(b)}[type(e.op)]()
+            except Exception:
+                return None
+        if isinstance(e, ast.Call) and len(e.args) == 1 and not e.keywords and (dotted(e.func) or "").split(".")[-1] in ("ceil", "floor", "int", "round"):
+            a = ev(e.args[0], S)
+            if a is None:
+                return None
+            return {"ceil": math.ceil, "floor": math.floor, "int": int, "round": round}[(dotted(e.func) or "").split(".")[-1]](a)
+        if isinstance(e, ast.UnaryOp) and isinstance(e.op, ast.USub):
+            a = ev(e.operand, S)
+            return -a if a is not None else None
+        leaves.append(norm(e))
+        return S
+    out = []
+    for S in (limit - 1, limit, limit + 1, 10 * limit):
+        del leaves[:]
+        v = ev(size_e, S)
+        if v is None or len(set(leaves)) != 1:
+            return None
+        out.append(bool(cmpf(v, const)))
+    return tuple(out)
+
+
 def run(eng, rep) -> None:
     prog, cg = eng.prog, eng.cg
     rep.explanation = (
@@ -77,9 +118,18 @@ def run(eng, rep) -> None:
         about_size = any("bitlength" in a for a in atoms) and any("bitstart" in a or "bitlength" in a for a in atoms)
         if not about_size:
             continue
-        tt = ordering_vs_const(op, const)
+        tt = guard_truth(size_e, op, const)
         site = norm(n.test, 60)
-        if tt == (False, False, True, True):
+        # size expression: last leaf extent or sum of lengths
+        last_ok = any(a.startswith("%s[-1].bitstart" % enc_param) for a in atoms) and any(a.startswith("%s[-1].bitlength" % enc_param) for a in atoms)
+        sum_ok = "call:sum" in pv.of(size_e) and any("bitlength" in a for a in atoms)
+        if tt is None:
+            rep.undecided("R14.1", builder.file, builder.qual, site, "a raising test on a size-like value whose arithmetic is not evaluated")
+        elif not (last_ok or sum_ok) and tt is not None and tt != (False, False, True, True) and not (tt[0] or tt[1]):
+            rep.undecided("R14.1", builder.file, builder.qual, site, "a raising test on a value that is not recognised as the layout's total bit length")
+        elif not (last_ok or sum_ok) and tt == (False, False, True, True):
+            rep.undecided("R14.1", builder.file, builder.qual, site, "raises for sizes above 64, on a value that is not recognised as the layout's total bit length (not counted as the guard)")
+        elif tt == (False, False, True, True):
             # size expression: last leaf extent or sum of lengths
             last_ok = any(a.startswith("%s[-1].bitstart" % enc_param) for a in atoms) and any(a.startswith("%s[-1].bitlength" % enc_param) for a in atoms)
             sum_ok = "call:sum" in pv.of(size_e) and any("bitlength" in a for a in atoms)
